@@ -154,6 +154,11 @@ func (d *Decimal) setString(c *Context, s string) (Condition, error) {
 		exps = append(exps, -exp)
 		s = s[:i] + s[i+1:]
 	}
+	// The sign was consumed above; the integer parser would accept another
+	// one here (".-5" becomes "-5" once the point is removed).
+	if strings.HasPrefix(s, "-") || strings.HasPrefix(s, "+") {
+		return 0, fmt.Errorf("parse mantissa: %s", s)
+	}
 	if _, ok := d.Coeff.SetString(s, 10); !ok {
 		return 0, fmt.Errorf("parse mantissa: %s", s)
 	}
